@@ -24,6 +24,11 @@ pub unsafe fn register(regs: LanguageGlobs) -> Result<()> {
 
 fn register_impl(regs: LanguageGlobs) -> Result<Vec<(SgLang, Types)>> {
   let mut lang_globs = vec![];
+  // `from_path` returns the first registered language whose globs match a path. Iterating the
+  // HashMap directly made that language depend on the per-process hash seed when the globs of
+  // two languages overlap; register in a fixed order (by the language key as written) instead.
+  let mut regs: Vec<_> = regs.into_iter().collect();
+  regs.sort();
   for (lang, globs) in regs {
     let lang = SgLang::from_str(&lang).with_context(|| EC::UnrecognizableLanguage(lang))?;
     // Note: we have to use lang.to_string() for normalized language name
